@@ -184,7 +184,7 @@ def probe_history(rng: random.Random, fam, declared: bool):
         ops += [["P", 0, e], ["G", 0, na]]
         rest = [b for b in other if b[0] != n]
         ops += [["V", na, [[n, ["i", 1]]] + rest], ["V", na, rest], ["V", na, []], ["V", na, [[n, ["i", 2]]]],
-                ["V", na, [["." + n, ["i", 3]]] + rest], ["V", na, rest]]
+                ["V", na, [["." + n, ["i", 3]]] + rest], ["V", na, rest]][:rng.choice([4, 6])]
         na += 1
     return ops[:40]
 
@@ -260,8 +260,82 @@ def gen_history(rng: random.Random, fam=None, max_len: int = 40):
     return ops[:max(length, 1)] if len(ops) <= max_len else ops[:max_len]
 
 
+def alternation_history(rng: random.Random):
+    """three to five environments of alternating runner classes, created one after the other (and sometimes with work in
+    between); then compile + program + evaluate on the LATEST one first and on the earlier ones"""
+    n = rng.randint(3, 5)
+    k0 = rng.choice("IC")
+    kinds = [k0 if i % 2 == 0 else ("I" if k0 == "C" else "C") for i in range(n)]
+    if rng.random() < 0.3:
+        kinds[rng.randrange(n)] = rng.choice("IC")
+    exprs = [["add", ["id", "x"], ["lit", 1]], {"src": "x + 1 == 3 || false"}, ["id", "x"], {"src": "x > 1 && x < 5"}]
+    ops: List[Any] = []
+    na = 0
+    between = rng.random() < 0.5
+
+    def work(e):
+        nonlocal na
+        x = rng.choice(exprs)
+        ops.extend([["P", e, x], ["G", e, na], ["V", na, [["x", ["i", rng.choice([1, 2, 3])]]]]])
+        na += 1
+    for i, k in enumerate(kinds):
+        ops.append(["E", k, None, []])
+        if between and i < n - 1 and rng.random() < 0.6:
+            work(i)
+        if rng.random() < 0.05:
+            ops.append(["R"])
+    order = list(range(n))[::-1] if rng.random() < 0.6 else rng.sample(range(n), n)
+    for e in order:
+        work(e)
+    for e in rng.sample(range(n), min(2, n)):
+        work(e)
+    return ops[:40]
+
+
+FN_EXPRS = [("size(s) + s.size()", "size", [["s", ["s", "h\u00e9llo"]]]), ("size(s)", "size", [["s", ["s", "ab"]]]),
+            ("score(x) + 1", "score", [["x", ["i", 1]]]), ("size(l) + 1", "size", [["l", ["l", [1, 2, 3]]]]),
+            ("score(x) + size(s)", "score", [["x", ["i", 2]], ["s", ["s", "abc"]]])]
+
+
+def fn_history(rng: random.Random):
+    """programs built with `functions=` (dict and list form) overriding a built-in or supplying an application function,
+    before and after programs that use the built-in / another function of the same name; both runner classes"""
+    kinds = [rng.choice("CCI"), rng.choice("CI")]
+    ops: List[Any] = [["E", kinds[0], None, []]]
+    if rng.random() < 0.6:
+        ops.append(["E", kinds[1], None, []])
+    nenv = len([o for o in ops if o[0] == "E"])
+    src, fname, b = rng.choice(FN_EXPRS)
+    variants: List[Any] = [None] if fname == "size" else []
+    for _ in range(rng.randint(2, 3)):
+        beh = rng.choice(["const", "plus", "bytes"] if fname == "size" else ["const", "plus"])
+        variants.append({"form": rng.choice(["dict", "list"]), "fns": [[fname, beh, rng.choice([0, 1, 100, 7])]]})
+    if fname == "score" and "size" in src and rng.random() < 0.5:
+        variants.append({"form": "list", "fns": [["score", "plus", 5], ["size", "const", 42]]})
+    rng.shuffle(variants)
+    na = 0
+    progs = []
+    for v in variants:
+        e = rng.randrange(nenv)
+        ops.append(["P", e, {"src": src}])
+        ops.append(["G", e, na] + ([v] if v else []))
+        if fname == "score" and v is None:
+            na += 1
+            continue
+        progs.append(len(progs))
+        na += 1
+        ops.append(["V", progs[-1], b])
+    for _ in range(rng.randint(2, 5)):
+        if progs:
+            ops.append(["V", rng.choice(progs), b])
+    return ops[:40]
+
+
 def gen_cases(rng: random.Random, families: int, per_family: int):
     cases = []
+    for _ in range(max(2, families * 2 // 3)):
+        cases.append({"kind": "hist", "ops": alternation_history(rng)})
+        cases.append({"kind": "hist", "ops": fn_history(rng)})
     for _ in range(families):
         fam = gen_family(rng)
         cases.append({"kind": "hist", "ops": probe_history(rng, fam, True)})
@@ -294,7 +368,8 @@ def index_history(ops, obs_model: Optional[List[str]] = None):
             if op[1] < len(envs) and op[2] < len(asts):
                 e = envs[op[1]]
                 a = asts[op[2]]
-                spec = {"kind": e[1], "pkg": e[2], "decls": e[3], "expr": a[1], "ast_kind": envs[a[0]][1]}
+                spec = {"kind": e[1], "pkg": e[2], "decls": e[3], "expr": a[1], "ast_kind": envs[a[0]][1],
+                        "fns": op[3] if len(op) > 3 else None}
                 info.append(spec)
                 if ok:
                     progs.append(spec)
@@ -309,10 +384,12 @@ def index_history(ops, obs_model: Optional[List[str]] = None):
 
 def alone_ops(spec, bindings):
     """the same evaluation performed alone: one environment, one compile, one program, one evaluate"""
+    g = ["G", 0, 0] + ([spec["fns"]] if spec.get("fns") else [])
     if spec["ast_kind"] == spec["kind"]:
-        ops = [["E", spec["kind"], spec["pkg"], spec["decls"]], ["P", 0, spec["expr"]], ["G", 0, 0]]
+        ops = [["E", spec["kind"], spec["pkg"], spec["decls"]], ["P", 0, spec["expr"]], g]
     else:   # the tree was built by an environment of the other runner class: that environment is part of the evaluation
-        ops = [["E", spec["ast_kind"], None, []], ["E", spec["kind"], spec["pkg"], spec["decls"]], ["P", 0, spec["expr"]], ["G", 1, 0]]
+        g[1] = 1
+        ops = [["E", spec["ast_kind"], None, []], ["E", spec["kind"], spec["pkg"], spec["decls"]], ["P", 0, spec["expr"]], g]
     if bindings is not None:
         ops.append(["V", 0, bindings])
     return ops
@@ -462,6 +539,8 @@ def model_tokens(ops) -> Optional[List[str]]:
                     return None
                 out += ["P", str(op[1])] + t
         elif k == "G":
+            if len(op) > 3 and op[3]:
+                return None        # host functions are outside the model's fragment
             out += ["G", str(op[1]), str(op[2])]
         elif k == "V":
             names = [n for n, _ in op[2]]
@@ -517,7 +596,7 @@ class C05(Prop):
     # ---- generation ------------------------------------------------------------------------------
     def generate(self, rng, tier):
         self._tier = tier
-        cases = gen_cases(rng, 3, 5) if tier == "quick" else gen_cases(rng, 80, 10)
+        cases = gen_cases(rng, 2, 4) if tier == "quick" else gen_cases(rng, 40, 8)
         budget = 240 if tier == "quick" else 1500
         from ..core import corpus_cases
         self.prefetch(corpus_cases(self.pid) + cases, budget)
@@ -534,7 +613,7 @@ class C05(Prop):
 
     def prefetch(self, cases, timeout):
         """run the histories, then every alone job they need, in pristine processes"""
-        todo = [c for c in cases if case_key(c) not in self._hist]
+        todo = list({case_key(c): c for c in cases if case_key(c) not in self._hist}.values())
         jobs = [{"id": case_key(c), "ops": c["ops"]} for c in todo]
         res = run_jobs(jobs, timeout)
         for c in todo:
